@@ -11,6 +11,7 @@ import (
 	"path/filepath"
 	"runtime"
 	"sort"
+	"strconv"
 	"strings"
 	"sync"
 	"sync/atomic"
@@ -49,7 +50,15 @@ type c08Result struct {
 func runC08Case(seed int64, idx int, tier string) *c08Result {
 	res := &c08Result{obs: map[string]int{}, cells: map[string]int{}}
 	var vmu sync.Mutex
+	// set once a Write failed inside a rotation that was made to fail (see the writer below)
+	var failedRotation atomic.Bool
 	fail := func(key, f string, a ...any) {
+		if failedRotation.Load() && (strings.HasPrefix(key, "snapshot/") || strings.HasPrefix(key, "monotone/")) {
+			// one key for the whole class: what the playlists look like after a Write failed half-way
+			// through a rotation is one finding, whatever invariant a particular response breaks.
+			// Panics, races, stuck requests and differing bodies keep their own keys.
+			f, key = "after a Write failed inside a segment rotation: ["+key+"] "+f, "after-failed-rotation/inconsistent-view"
+		}
 		vmu.Lock()
 		defer vmu.Unlock()
 		if len(res.viol) < 30 {
@@ -431,7 +440,40 @@ func runC08Case(seed int64, idx int, tier string) *c08Result {
 
 	// the writer
 	werrs := 0
+	// every eighth Directory run: half-way, a directory squats the name of the segment file after the
+	// open one, so that the rotation that needs it fails; the Write returns an error, the blocker is
+	// removed and the writer goes on (an application that logs the error and continues). Readers
+	// are active throughout.
+	squatAt, blocker := -1, ""
+	if disk && (idx/6)%4 == 1 {
+		squatAt = len(c.Writes)/3 + rng.Intn(len(c.Writes)/3+1)
+	}
 	for i := range c.Writes {
+		if i == squatAt {
+			if es, err := os.ReadDir(h.Dir); err == nil {
+				best, bestN := []string(nil), -1
+				for _, e := range es {
+					if m := reSegName.FindStringSubmatch(e.Name()); m != nil && strings.Contains(m[1], h.LeadingStream()+"_") {
+						if n, _ := strconv.Atoi(m[2]); n > bestN {
+							best, bestN = m, n
+						}
+					}
+				}
+				if best != nil {
+					blocker = filepath.Join(h.Dir, fmt.Sprintf("%sseg%d%s", best[1], bestN+1, best[3]))
+					if os.Mkdir(blocker, 0o755) != nil {
+						blocker = ""
+					} else {
+						// (from here on: readers may see the failure before the Write has returned)
+						failedRotation.Store(true)
+						count("rotations_made_to_fail")
+					}
+				}
+			}
+			if blocker == "" {
+				squatAt++ // nothing on disk yet: try again at the next write
+			}
+		}
 		phase.Store(phWrite)
 		var err error
 		func() {
@@ -452,6 +494,11 @@ func runC08Case(seed int64, idx int, tier string) *c08Result {
 		}
 		if err != nil {
 			werrs++
+			if blocker != "" {
+				count("writes_failed_in_a_rotation")
+				os.Remove(blocker)
+				blocker = ""
+			}
 		}
 		if i%3 == 0 {
 			runtime.Gosched()
